@@ -68,17 +68,25 @@ Print Assumptions GenTie_Rankscore.
 Lemma concat_repeat_singleton {A} (x : A) k : concat (repeat [x] k) = repeat x k.
 Proof. induction k as [|k IH]; [reflexivity|]. cbn. rewrite IH. reflexivity. Qed.
 
+(* the proofs below go by case analysis on the integer comparisons and linear arithmetic, not by syntactic identity, so
+   that an equivalent rewrite of the source ([len(selected) < n], the padding without its guard, the Borda score as
+   [base + (n - 1) - rank]) keeps them *)
+Ltac z_atoms :=
+  repeat match goal with
+  | |- context [(?a <? ?b)%Z] => destruct (Z.ltb_spec a b)
+  | |- context [(?a <=? ?b)%Z] => destruct (Z.leb_spec a b)
+  | |- context [(?a =? ?b)%Z] => destruct (Z.eqb_spec a b)
+  end.
+
 (* select_padded(sequence, n, pad_with) for n >= 0: the first n items, padded to length n *)
 Lemma gen_select_padded_spec : forall (s : list Q) (n : nat) (p : Q),
   Gen.Rankscore.select_padded s (Z.of_nat n) p = firstn n s ++ repeat p (n - length (firstn n s)).
 Proof.
-  intros s n p. unfold Gen.Rankscore.select_padded. cbv zeta.
-  unfold py_slice_to. replace (0 <=? Z.of_nat n)%Z with true by (symmetry; apply Z.leb_le; lia).
-  rewrite Nat2Z.id. unfold py_len, py_list_mul.
-  set (sel := firstn n s).
-  destruct (Z.of_nat (length sel) <? Z.of_nat n)%Z eqn:E.
-  - rewrite concat_repeat_singleton. f_equal. f_equal. apply Z.ltb_lt in E. lia.
-  - apply Z.ltb_ge in E. replace (n - length sel)%nat with 0%nat by lia. cbn [repeat]. rewrite app_nil_r. reflexivity.
+  intros s n p. unfold Gen.Rankscore.select_padded, py_slice_to, py_len, py_list_mul. cbv zeta.
+  rewrite ?Nat2Z.id. pose proof (firstn_length n s) as Hlen. set (sel := firstn n s) in *.
+  z_atoms; cbn [negb andb orb]; try lia; rewrite ?concat_repeat_singleton;
+    solve [ f_equal; f_equal; lia
+          | replace (n - length sel)%nat with 0%nat by lia; cbn [repeat]; rewrite ?app_nil_r; reflexivity ].
 Qed.
 
 Lemma tie_select_padded : forall s n, Gen.Rankscore.select_padded s (Z.of_nat n) 0 = select_padded s n.
@@ -90,7 +98,7 @@ Lemma tie_borda_set_n : forall base k,
   map (fun r => inject_Z (Z.of_nat k + base - 1 - Z.of_nat r)) (seq 0 k).
 Proof.
   intros base k. unfold Gen.Rankscore.Borda_set_n_candidates, py_range. cbv zeta.
-  rewrite Nat2Z.id, !map_map. apply map_ext. intros r. reflexivity.
+  rewrite Nat2Z.id, !map_map. apply map_ext. intros r. f_equal. lia.
 Qed.
 
 Lemma tie_borda_set_n_state : forall base k,
@@ -105,11 +113,9 @@ Definition exn_of (r : list Q + borda_err) : list Q + pyexn :=
 Lemma tie_borda_scores : forall k sc n,
   Gen.Rankscore.Borda_scores (Z.of_nat k) sc (Z.of_nat n) = exn_of (borda_scores_st {| b_n := Some k; b_scores := Some sc |} n).
 Proof.
-  intros k sc n. unfold Gen.Rankscore.Borda_scores, borda_scores_st. cbn [b_n b_scores].
-  destruct (Nat.ltb k n) eqn:E.
-  - apply Nat.ltb_lt in E. replace (Z.of_nat k <? Z.of_nat n)%Z with true by (symmetry; apply Z.ltb_lt; lia). reflexivity.
-  - apply Nat.ltb_ge in E. replace (Z.of_nat k <? Z.of_nat n)%Z with false by (symmetry; apply Z.ltb_ge; lia).
-    cbn [exn_of]. f_equal. apply (tie_select_padded sc n).
+  intros k sc n. unfold Gen.Rankscore.Borda_scores, borda_scores_st. cbn [b_n b_scores]. cbv zeta.
+  destruct (Nat.ltb_spec k n); z_atoms; cbn [negb andb orb exn_of]; try lia; try reflexivity;
+    f_equal; apply (tie_select_padded sc n).
 Qed.
 
 (* both together = the Borda scorer of the positional converter (Model/Convert.v rank_scores, C13 / C17) *)
